@@ -19,7 +19,7 @@ FORMATS = {
     'en': ('auto', 'auto_extended', 'xml', 'jigg_xml', 'conll', 'json', 'ptb', 'deriv', 'html', 'prolog'),
     'ja': ('auto', 'deriv', 'ja', 'conll', 'html', 'jigg_xml', 'ptb', 'json', 'prolog'),
 }
-REQUIRED_MONITORS = {f'decoded:{f}': 50 for f in set(FORMATS['en']) | set(FORMATS['ja'])}
+REQUIRED_MONITORS = dict({f'decoded:{f}': 50 for f in set(FORMATS['en']) | set(FORMATS['ja'])}, **{'rendered-flat-form': 100})
 DECODERS = {
     'auto': lambda t, lang: codecs.decode_auto(t), 'auto_extended': lambda t, lang: codecs.decode_auto(t, True),
     'conll': lambda t, lang: codecs.decode_conll(t), 'xml': lambda t, lang: codecs.decode_xml(t),
